@@ -172,7 +172,7 @@ func init() {
 		}
 		pl := []schedPlan{{"race-elect-submit", 1, 120}, {"race-snapshot", 1, 90}, {"race-membership", 1, 120}, {"race-stop", 1, 120}, {"race-install", 1, 90}, {"race-bootstrap", 1, 90}, {"race-snapshot-membership", 2, 120}, {"race-file-compact", 1, 90}}
 		if tier == "thorough" {
-			pl = []schedPlan{{"race-elect-submit", 2, 300}, {"race-snapshot", 2, 200}, {"race-membership", 2, 300}, {"race-stop", 2, 300}, {"race-install", 2, 200}, {"race-bootstrap", 2, 200}, {"race-snapshot-membership", 3, 300}, {"race-file-compact", 2, 300}}
+			pl = []schedPlan{{"race-elect-submit", 2, 300}, {"race-snapshot", 2, 200}, {"race-membership", 2, 300}, {"race-stop", 2, 300}, {"race-install", 2, 200}, {"race-bootstrap", 2, 200}, {"race-snapshot-membership", 2, 300}, {"race-file-compact", 2, 300}}
 		}
 		return schedCheck(prop, tier, pl, map[string]any{"race_detector": "go build -race; hand-offs via //go:norace spin gates"})
 	}
